@@ -1192,4 +1192,8 @@ func (P *Prog) checkPrecedence(r *Result) {
 		r.undecided("C11/precedence", "i18n#language-from-context", "-", "i18n formatter closure not found")
 	}
 	r.floor("C11/precedence", 21)
+	// test-level Message / IssueCode / Params options reach the stored test, and the negated code is derived
+	// from the built-in code, not from an IssueCode option (C17's option-locality and not-typestate rules)
+	shareRule(P, r, checkC17, "C17/option-locality", nil, "C11/test-options-effective", 15)
+	shareRule(P, r, checkC17, "C17/not-typestate", func(o Obligation) bool { return strings.HasSuffix(o.Construct, "#shape") }, "C11/negated-code-from-builtin", 1)
 }
